@@ -60,6 +60,7 @@ class Gen:
         self.aliases = []       # deprecated aliases defined: (old, new)
         self.probes = []        # (step, dirty_at_first)
         self.ntag = 0
+        self.spec_of = {}       # slot -> constructor spec
 
     # ---------------------------------------------------------------- pool
     def fresh(self, prefix):
@@ -79,6 +80,7 @@ class Gen:
     def new(self, kind, spec, desc, prefix=None):
         s = self.fresh(prefix or kind[0])
         self.emit(["new", s, kind, spec])
+        self.spec_of[s] = spec
         d = dict(desc)
         d["k"] = kind
         self.desc[s] = d
@@ -358,6 +360,13 @@ class Gen:
         return self.new_arr((n,), T), n
 
     # ---------------------------------------------------------------- operation steps
+    # scalar operands: the identity elements (0 for + -, 1 for * /) are where an operator can be
+    # tempted to hand back its operand instead of a new system
+    SCALARS = [0, 0, 0.0, 1, 1, 1.0, -1, 2, 2.0, 0.5, 3]
+
+    def scalar(self):
+        return self.rng.choice(self.SCALARS)
+
     def op_arith(self):
         rng = self.rng
         a = self.sys_any(("ss", "tf", "frd"))
@@ -373,7 +382,9 @@ class Gen:
                 args.reverse()
             desc = self.res_desc(a, b)
         elif r < 0.8:
-            c = rng.choice([2, 2.0, -1, 0.5, 3])
+            c = self.scalar()
+            if rng.random() < 0.5:      # the identity element of the operator
+                op, c = rng.choice([("add", 0), ("add", 0.0), ("sub", 0), ("mul", 1), ("mul", 1.0)])
             args = [ref(a), c] if rng.random() < 0.5 else [c, ref(a)]
             desc = self.res_desc(a)
         else:
@@ -389,7 +400,7 @@ class Gen:
             b = self.sys_any(("tf",), siso=True)
             self.emit(["op", self.out(self.res_desc(a)), "div", [ref(a), ref(b)], {}])
         else:
-            self.emit(["op", self.out(self.res_desc(a)), "div", [ref(a), self.rng.choice([2, 2.0, 0.5])], {}])
+            self.emit(["op", self.out(self.res_desc(a)), "div", [ref(a), self.rng.choice([2, 2.0, 0.5, 1, 1.0, -1])], {}])
 
     def op_unary(self):
         rng = self.rng
@@ -427,11 +438,19 @@ class Gen:
         kw = {}
         if rng.random() < 0.25:
             kw["name"] = self.fresh("FB")
-        if rng.random() < 0.5:
-            args = [ref(a), ref(b) if b else 1, sign]
+        other = ref(b) if b else self.scalar()
+        r = rng.random()
+        if r < 0.12:                  # scalar (or 1x1 array) as the FIRST system
+            first = self.scalar() if rng.random() < 0.7 else ref(self.new_arr((1, 1), [[float(rng.randint(1, 3))]]))
+            if rng.random() < 0.4:
+                for key, lab in rng.sample([("inputs", ["fi"]), ("outputs", ["fo"])], rng.choice([1, 2])):
+                    kw[key] = lab
+            self.emit(["op", self.out(self.res_desc(a)), "feedback", [first, ref(a), sign], kw])
+        elif r < 0.55:
+            args = [ref(a), other, sign]
             self.emit(["op", self.out(self.res_desc(a, b)), "feedback", args, kw])
         else:
-            self.emit(["op", self.out(self.res_desc(a, b)), "m_feedback", [ref(a), ref(b) if b else 1, sign], {}])
+            self.emit(["op", self.out(self.res_desc(a, b)), "m_feedback", [ref(a), other, sign], {}])
 
     def op_bdalg(self):
         rng = self.rng
@@ -445,9 +464,24 @@ class Gen:
             self.emit(["op", self.out(self.res_desc(a)), "negate", [ref(a)], kw])
             return
         nsys = rng.choice([1, 1, 2, 2, 3])
+        # operands of mixed kinds (the functions accept "scalar, array, or InputOutputSystem"), in
+        # any order: a scalar or array may come first
+        mixed = rng.random() < 0.35
+        if mixed:
+            nsys = rng.choice([2, 2, 2, 3])
         args = [ref(a)]
         p, m = da["p"], da["m"]
         for _ in range(nsys - 1):
+            r = rng.random()
+            if mixed and r < 0.65:
+                ident = {"parallel": [0, 0, 0.0], "series": [1, 1, 1.0]}.get(fn)
+                args.append(rng.choice(ident) if ident and rng.random() < 0.5 else self.scalar())
+                if fn == "append":
+                    p, m = p + 1, m + 1
+                continue
+            if mixed and r < 0.85 and fn != "append" and (fn == "parallel" or p == m):
+                args.append(ref(self.new_arr((p, m))))
+                continue
             if fn == "append":
                 b = self.sys_any(("ss", "tf") if da["k"] == "ss" else ("tf",))
                 p, m = p + self.desc[b]["p"], m + self.desc[b]["m"]
@@ -456,11 +490,88 @@ class Gen:
                 if fn == "series" and da["p"] != da["m"]:
                     fn = "parallel"
             args.append(ref(b))
-        if rng.random() < 0.2 and fn != "append":
-            kw["inputs"] = ["in%d" % i for i in range(da["m"])]
-        if rng.random() < 0.2 and fn != "append":
-            kw["outputs"] = ["out%d" % i for i in range(da["p"])]
+        if mixed and rng.random() < 0.6:
+            rng.shuffle(args)
+        pl = 0.45 if mixed else 0.2
+        if rng.random() < pl:
+            kw["inputs"] = ["in%d" % i for i in range(m)]
+        if rng.random() < pl:
+            kw["outputs"] = ["out%d" % i for i in range(p)]
+        if rng.random() < 0.08 and da["k"] == "ss" and len(args) == 2 and mixed:
+            kw["states"] = ["st%d" % i for i in range(da.get("n") or 1)]
         self.emit(["op", self.out(self.res_desc(a, p=p, m=m)), fn, args, kw])
+
+    def op_sum(self):
+        """the builtin sum() over systems: starts with `0 + sys` (or with a given start value)"""
+        rng = self.rng
+        a = self.sys_any(("ss", "tf", "frd"))
+        items = [ref(a)] + [ref(self.partner(a)) for _ in range(rng.choice([0, 1, 1, 2]))]
+        lst = {"lst": items} if rng.random() < 0.6 else ref(self.new("list", {"v": items}, {}, "l"))
+        args = [lst]
+        if rng.random() < 0.3:
+            args.append(rng.choice([0, 0.0, 1, ref(self.partner(a))]))
+        self.emit(["op", self.out(self.res_desc(a)), "sum", args, {}])
+
+    def op_nlarith(self):
+        """operators and block-diagram functions with a nonlinear system among the operands
+        (scalars, 1x1 arrays, linear and nonlinear partners, either order)"""
+        rng = self.rng
+        a = self.sys_any(("nls", "nld"))
+        fn = rng.choice(["add", "sub", "mul", "mul", "neg", "series", "parallel", "negate", "feedback"])
+        desc = {"k": "nlx", "p": 1, "m": 1, "dt": "C"}
+        kw = {}
+        if fn in ("neg", "negate"):
+            if fn == "negate" and rng.random() < 0.5:
+                kw["name"] = self.fresh("NQ")
+            self.emit(["op", self.out(desc), fn, [ref(a)], kw])
+            return
+        r = rng.random()
+        if r < 0.4:
+            b = self.scalar()
+        elif r < 0.5:
+            b = ref(self.new_arr((1, 1), [[float(rng.randint(-2, 3))]]))
+        elif r < 0.8:
+            b = ref(self.sys_any(("ss", "tf"), siso=True, dt=("C",)))
+        else:
+            b = ref(self.sys_any(("nls", "nld")))
+        args = [ref(a), b]
+        if rng.random() < 0.5:
+            args.reverse()
+        if fn in ("series", "parallel", "feedback"):
+            if rng.random() < 0.5:
+                kw["name"] = self.fresh("NQ")
+            if rng.random() < 0.3:
+                kw["inputs"] = ["ni"]
+            if rng.random() < 0.3:
+                kw["outputs"] = ["no"]
+        self.emit(["op", self.out(desc), fn, args, kw])
+
+    def op_rename(self):
+        """the caller renames / relabels a *result* with the documented in-place method
+        `update_names`; no operand of the operation that produced the result may change with it
+        (an operator that hands back its operand is seen here whatever keywords were used).  The
+        result is used by nothing else: it is renamed straight away and then retired."""
+        rng = self.rng
+        producer = rng.choice(["op_arith"] * 4 + ["op_bdalg"] * 4 + ["op_unary"] * 3 + ["op_sum"] * 2 +
+                              ["op_feedback", "op_div", "op_nlarith", "op_convert", "op_transform"])
+        mark = len(self.cur)
+        getattr(self, producer)()
+        if len(self.cur) == mark:
+            return
+        st = self.cur[-1]
+        if st[0] != "op" or st[1] is None or st[1] not in self.desc:
+            return
+        d = self.desc.pop(st[1])
+        if d.get("k") not in ("ss", "tf", "frd", "nlx"):
+            return
+        kw = {"name": self.fresh("R")} if rng.random() < 0.8 else {}
+        if rng.random() < 0.4 and "m" in d:
+            kw["inputs"] = ["ri%d" % i for i in range(d["m"])]
+        if rng.random() < 0.4 and "p" in d:
+            kw["outputs"] = ["ro%d" % i for i in range(d["p"])]
+        if not kw:
+            kw["name"] = self.fresh("R")
+        self.emit(["op", None, "update_names", [ref(st[1])], kw])
 
     def op_connect(self):
         a = self.sys_any(("ss",), siso=False)
@@ -1180,6 +1291,302 @@ class Gen:
     def op_objarr(self):
         self.new_tf_objarr()
 
+    # ---------------------------------------------------------------- optimal control / estimation
+    OPT_DISC = [([[1.0, 1.0], [0.0, 1.0]], [[0.5], [1.0]]), ([[0.9, 0.2], [0.0, 0.8]], [[0.0], [1.0]]),
+                ([[0.5, 1.0], [-0.5, 0.5]], [[1.0], [1.0]]), ([[1.0]], [[1.0]]), ([[0.5]], [[2.0]])]
+    OPT_CONT = [([[0.0, 1.0], [-1.0, -1.0]], [[0.0], [1.0]]), ([[0.0, 1.0], [0.0, 0.0]], [[0.0], [1.0]]),
+                ([[-1.0]], [[1.0]])]
+
+    def mat_arg(self, M):
+        """a matrix argument: caller-owned array (plain / view) or literal"""
+        return ref(self.new_arr((len(M), len(M[0])), M)) if self.rng.random() < 0.6 else M
+
+    def diag(self, n, lo=1, hi=10):
+        return [[float(self.rng.randint(lo, hi)) if i == j else 0.0 for j in range(n)] for i in range(n)]
+
+    def opt_sys(self):
+        rng = self.rng
+        cont = rng.random() < 0.15
+        tab = self.OPT_CONT if cont else self.OPT_DISC
+        one = [ab for ab in tab if len(ab[0]) == 1]
+        A, B = rng.choice(one) if rng.random() < 0.12 else rng.choice([ab for ab in tab if len(ab[0]) > 1])
+        n = len(A)
+        dt = "C" if cont else rng.choice([1, 1, 0.5, "T"])
+        spec = {"abcd": [A, B, [[1.0 if i == j else 0.0 for j in range(n)] for i in range(n)],
+                         [[0.0] for _ in range(n)]]}
+        if dt != "C":
+            spec["dt"] = dt
+        if rng.random() < 0.4:
+            spec["kw"] = {"name": self.fresh("S")}
+        return self.new("ss", spec, {"p": n, "m": 1, "n": n, "dt": dt, "name": None, "abcd": True}, "s")
+
+    def new_cost(self, sysn, terminal=False):
+        rng = self.rng
+        d = self.desc[sysn]
+        n, m = d["n"], d["m"]
+        Q = self.mat_arg(self.diag(n, 1, 10 if terminal else 4))
+        R = None if terminal and rng.random() < 0.6 else self.mat_arg(self.diag(m, 1, 3))
+        kw = {}
+        if rng.random() < 0.25:
+            kw["x0"] = self.vec(n, col=False)
+        if rng.random() < 0.15 and R is not None:
+            kw["u0"] = self.vec(m, col=False)
+        spec = {"sys": ref(sysn), "args": [Q, R]}
+        if kw:
+            spec["kw"] = kw
+        return self.new("cost", spec, {"sys": sysn}, "c")
+
+    def new_constr(self, sysn):
+        rng = self.rng
+        d = self.desc[sysn]
+        n, m = d["n"], d["m"]
+        fn = rng.choice(["input_range", "input_range", "state_range", "output_range", "input_poly", "state_poly"])
+        if fn == "input_range":
+            c = float(rng.randint(1, 3))
+            args = [self.vec(m, [-c] * m, col=False), self.vec(m, [c] * m, col=False)]
+        elif fn in ("state_range", "output_range"):
+            c = float(rng.randint(5, 9))
+            args = [self.vec(n, [-c] * n, col=False), self.vec(n, [c] * n, col=False)]
+        elif fn == "input_poly":
+            c = float(rng.randint(1, 3))
+            args = [self.mat_arg([[1.0] * m, [-1.0] * m]), self.vec(2, [c, c], col=False)]
+        else:
+            c = float(rng.randint(6, 9))
+            args = [self.mat_arg([[1.0] + [0.0] * (n - 1), [-1.0] + [0.0] * (n - 1)]), self.vec(2, [c, c], col=False)]
+        return self.new("constr", {"fn": fn, "sys": ref(sysn), "args": args}, {"sys": sysn}, "k")
+
+    def constr_list(self, sysn):
+        rng = self.rng
+        cs = [ref(self.new_constr(sysn)) for _ in range(rng.choice([1, 1, 2]))]
+        r = rng.random()
+        if r < 0.5:
+            return {"lst": cs}
+        if r < 0.8:
+            return ref(self.new("list", {"v": cs}, {}, "l"))
+        return cs[0]                  # a single constraint (not in a list) is accepted too
+
+    def time_grid(self, sysn, N):
+        dt = self.desc[sysn]["dt"]
+        h = 1.0 if dt in ("T", "C") else float(dt)
+        if dt == "C":
+            h = 0.5
+        T = [round(i * h, 10) for i in range(N)]
+        return ref(self.new_list(T)) if self.rng.random() < 0.06 else ref(self.new_arr((N,), T))
+
+    def new_ocp(self, sysn=None):
+        """an OptimalControlProblem the caller keeps and calls several times; cost functions,
+        constraints, time points and the initial guess are objects of the caller"""
+        rng = self.rng
+        sysn = sysn or self.opt_sys()
+        d = self.desc[sysn]
+        N = rng.choice([3, 4, 5])
+        cost = self.pick(lambda c: c.get("k") == "cost" and c.get("sys") == sysn and not c.get("lik")) \
+            if rng.random() < 0.5 else None
+        cost = cost or self.new_cost(sysn)
+        kw = {}
+        if rng.random() < 0.6:
+            kw["terminal_cost"] = ref(self.new_cost(sysn, terminal=True)) if rng.random() < 0.7 else ref(cost)
+        if rng.random() < 0.35:
+            kw["trajectory_constraints"] = self.constr_list(sysn)
+        if rng.random() < 0.12:
+            kw["terminal_constraints"] = self.constr_list(sysn)
+        if rng.random() < 0.2:
+            kw["initial_guess"] = ref(self.new_arr((d["m"], N))) if rng.random() < 0.6 else self.vec(d["m"], col=False)
+        if rng.random() < 0.15:
+            kw["trajectory_method"] = "collocation" if d["dt"] == "C" else "shooting"
+        if rng.random() < 0.1:
+            kw["minimize_method"] = "SLSQP"
+        if rng.random() < 0.08:
+            kw["minimize_options"] = ref(self.new_dict({"maxiter": 50})) if rng.random() < 0.6 else {"maxiter": 50}
+        spec = {"sys": ref(sysn), "timepts": self.time_grid(sysn, N), "cost": ref(cost), "kw": kw}
+        return self.new("ocp", spec, {"sys": sysn, "n": d["n"], "m": d["m"], "N": N, "dt": d["dt"], "cost": cost,
+                                      "results": [], "okw": kw}, "q")
+
+    def state_arg(self, n):
+        return self.vec(n, [float(self.rng.randint(-3, 3)) for _ in range(n)], col=False)
+
+    def op_optimal(self):
+        """calls on a problem object with a history: compute_trajectory from several initial
+        states, warm-started with the inputs an earlier call returned / a caller-owned array / not
+        at all, compute_mpc, MPC controllers built from it, and the function forms on the same
+        cost / constraint objects"""
+        rng = self.rng
+        o = self.pick(lambda d: d.get("k") == "ocp")
+        if o is None or rng.random() < 0.07:
+            o = self.new_ocp()
+        d = self.desc[o]
+        n, m, N = d["n"], d["m"], d["N"]
+        r = rng.random()
+        if r < 0.64:
+            kw = {}
+            g = rng.random()
+            if d["results"] and g < 0.55:
+                kw["initial_guess"] = {"item": [rng.choice(d["results"][-2:]), "inputs"]}
+            elif g < 0.68:
+                kw["initial_guess"] = ref(self.new_arr((m, N))) if rng.random() < 0.7 else self.vec(m, col=False)
+            for key, vals, pr in (("squeeze", [True, False], 0.12), ("transpose", [True], 0.06),
+                                  ("return_states", [False], 0.06), ("print_summary", [False], 0.3)):
+                if rng.random() < pr:
+                    kw[key] = rng.choice(vals)
+            # initial state: a new one, or (to hit whatever is kept from the call before) the previous one
+            x = self.state_arg(n) if not d.get("lastx") or rng.random() < 0.75 else d["lastx"]
+            d["lastx"] = x
+            out = self.out({"k": "ocpres", "ocp": o})
+            if not any(k2 in kw for k2 in ("squeeze", "transpose", "return_states")):
+                d["results"].append(out)
+            self.emit(["op", out, "ocp_compute_trajectory", [ref(o), x], kw])
+        elif r < 0.74:
+            kw = {"squeeze": rng.choice([True, False])} if rng.random() < 0.2 else {}
+            self.emit(["op", None, "ocp_compute_mpc", [ref(o), self.state_arg(n)], kw])
+        elif r < 0.82:
+            kw = {}
+            if rng.random() < 0.5:
+                kw["name"] = self.fresh("MPC")
+            if rng.random() < 0.3:
+                kw["inputs"] = self.labels("xm", n)
+            if rng.random() < 0.3:
+                kw["outputs"] = self.labels("um", m)
+            self.emit(["op", self.out({"k": "mpc", "ocp": o, "n": n, "m": m, "N": N}), "ocp_create_mpc_iosystem",
+                       [ref(o)], kw])
+        elif r < 0.92:
+            # function forms with the caller's system, time points, cost and constraint objects
+            spec = self.spec_of[o]
+            kw = {k2: v for k2, v in spec["kw"].items() if k2 in ("terminal_cost", "trajectory_constraints",
+                                                                   "terminal_constraints", "initial_guess")}
+            if rng.random() < 0.5:
+                self.emit(["op", self.out({"k": "ocpres"}), "solve_optimal_trajectory",
+                           [spec["sys"], spec["timepts"], self.state_arg(n), spec["cost"]], kw])
+            else:
+                kw.pop("initial_guess", None)
+                if rng.random() < 0.4:
+                    kw["name"] = self.fresh("MPC")
+                self.emit(["op", self.out({"k": "mpc", "n": n, "m": m, "N": N}), "create_mpc_iosystem",
+                           [spec["sys"], spec["timepts"], spec["cost"]], kw])
+        else:
+            c = self.pick(lambda c: c.get("k") == "cost" and not c.get("lik")) or d["cost"]
+            dc = self.desc[self.desc[c]["sys"]]
+            self.emit(["op", None, "cost_eval", [ref(c), ref(self.new_arr((dc["n"],))), ref(self.new_arr((dc["m"],)))], {}])
+
+    def op_estim(self):
+        """optimal (moving horizon) estimation problems called several times"""
+        rng = self.rng
+        o = self.pick(lambda d: d.get("k") == "oep")
+        if o is None or rng.random() < 0.15:
+            o = self.new_oep()
+        self.estim_call(o)
+
+    def new_oep(self, prior=0.5):
+        rng = self.rng
+        if True:
+            A, _ = rng.choice(self.OPT_DISC[:3])
+            spec = {"abcd": [A, [[0.5, 1.0], [1.0, 0.0]], [[1.0, 0.0]], [[0.0, 0.0]]], "dt": rng.choice([1, 1, 0.5])}
+            sysn = self.new("ss", spec, {"p": 1, "m": 2, "n": 2, "dt": spec["dt"], "name": None, "abcd": True}, "s")
+            N = rng.choice([3, 4])
+            args = [self.mat_arg([[float(rng.randint(1, 3))]])] + \
+                ([self.mat_arg([[float(rng.randint(1, 3))]])] if rng.random() < 0.6 else [])
+            cost = self.new("cost", {"fn": "likelihood", "sys": ref(sysn), "args": args}, {"sys": sysn, "lik": True}, "c")
+            kw = {}
+            if rng.random() < prior:       # prior on the initial state: used when the call gives initial_state
+                kw["terminal_cost"] = ref(self.new("cost", {"fn": "prior", "sys": ref(sysn),
+                                                            "args": [self.diag(2, 1, 4)]}, {"sys": sysn, "lik": True}, "c"))
+            if rng.random() < 0.3:
+                kw["control_indices"] = self.idx_list([0])
+            if rng.random() < 0.15:
+                kw["disturbance_indices"] = self.idx_list([1])
+            if rng.random() < 0.2:
+                kw["trajectory_constraints"] = {"lst": [ref(self.new(
+                    "constr", {"fn": "disturbance_range", "sys": ref(sysn),
+                               "args": [self.vec(1, [-5.0], col=False), self.vec(1, [5.0], col=False)]},
+                    {"sys": sysn}, "k"))]}
+            return self.new("oep", {"sys": ref(sysn), "timepts": self.time_grid(sysn, N), "cost": ref(cost), "kw": kw},
+                            {"sys": sysn, "N": N, "cost": cost, "results": [], "okw": kw}, "e")
+
+    def estim_call(self, o, px0=0.4, pfn=0.2):
+        rng = self.rng
+        d = self.desc[o]
+        N = d["N"]
+        Y = ref(self.new_arr((1, N), [[float(rng.randint(-2, 3)) for _ in range(N)]]))
+        U = ref(self.new_arr((1, N), [[float(rng.randint(-1, 1)) for _ in range(N)]]))
+        kw = {}
+        if rng.random() < px0:
+            kw[rng.choice(["initial_state", "X0"])] = self.state_arg(2)
+        if d["results"] and rng.random() < 0.45:
+            rs = rng.choice(d["results"][-2:])
+            kw["initial_guess"] = {"tup": [{"item": [rs, "states"]}, {"item": [rs, "inputs"]}]}
+        if rng.random() < 0.1:
+            kw["squeeze"] = rng.choice([True, False])
+        if rng.random() >= pfn:
+            out = self.out({"k": "oepres", "oep": o})
+            if "squeeze" not in kw:
+                d["results"].append(out)
+            self.emit(["op", out, "oep_compute_estimate", [ref(o), Y, U], kw])
+        else:
+            spec = self.spec_of[o]
+            kw2 = {k2: v for k2, v in kw.items() if k2 != "initial_guess"}
+            kw2.update({k2: v for k2, v in spec["kw"].items()})
+            self.emit(["op", self.out({"k": "oepres"}), "solve_optimal_estimate",
+                       [spec["sys"], spec["timepts"], Y, U, spec["cost"]], kw2])
+
+    def op_mpc_eval(self):
+        """evaluation of an MPC controller built from a problem object the caller still holds"""
+        rng = self.rng
+        c = self.pick(lambda d: d.get("k") == "mpc")
+        if c is None:
+            self.op_optimal()
+            return
+        d = self.desc[c]
+        xs = self.vec(d["m"] * d["N"], [float(rng.randint(-1, 1)) for _ in range(d["m"] * d["N"])], col=False)
+        self.emit(["op", None, rng.choice(["nl_output", "nl_dynamics"]), [ref(c), 0, xs, self.state_arg(d["n"])], {}])
+
+    # ---------------------------------------------------------------- differentially flat systems
+    def op_flat(self):
+        rng = self.rng
+        f = self.pick(lambda d: d.get("k") == "flat")
+        if f is None or rng.random() < 0.15:
+            a, b = float(rng.randint(0, 3)), float(rng.randint(0, 3))
+            spec = {"abcd": [[[0.0, 1.0], [-a, -b]], [[0.0], [float(rng.randint(1, 2))]], [[1.0, 0.0]], [[0.0]]]}
+            if rng.random() < 0.4:
+                spec["kw"] = {"name": self.fresh("FS")}
+            f = self.new("flat", spec, {"n": 2, "m": 1, "p": 1, "dt": "C"}, "f")
+        r = rng.random()
+        tr = self.pick(lambda d: d.get("k") == "traj")
+        if r < 0.45 or tr is None:
+            Tf = float(rng.choice([1, 2, 4]))
+            nt = rng.choice([3, 4, 6])
+            T = Tf if rng.random() < 0.4 else ref(self.new_arr((nt,), [round(Tf * i / (nt - 1), 10) for i in range(nt)]))
+            args = [ref(f), T, self.state_arg(2), self.vec(1, col=False), self.state_arg(2), self.vec(1, col=False)]
+            kw = {}
+            if rng.random() < 0.5:
+                fam = rng.choice(["poly", "bezier", "bspline"])
+                bargs = {"poly": [rng.choice([6, 8]), Tf], "bezier": [rng.choice([6, 8]), Tf],
+                         "bspline": [self.own([0.0, Tf / 2, Tf]), rng.choice([4, 5])]}[fam]
+                kw["basis"] = ref(self.new("basis", {"fn": fam, "args": bargs}, {}, "w"))
+            if rng.random() < 0.15:             # keyword spelling of the end conditions
+                for nm, val in zip(["initial_state", "initial_input", "final_state", "final_input"], args[2:]):
+                    kw[nm] = val
+                args = args[:2]
+            tr = self.out({"k": "traj", "Tf": Tf})
+            self.emit(["op", tr, "point_to_point", args, kw])
+            if rng.random() < 0.6:
+                self.traj_use(tr)
+        elif r < 0.85:
+            self.traj_use(tr)
+        elif r < 0.93:
+            self.emit(["op", None, "flat_forward", [ref(f), self.state_arg(2), self.vec(1, col=False)], {}])
+        else:
+            z = [ref(self.new_arr((3,), [float(rng.randint(-2, 2)) for _ in range(3)]))]
+            self.emit(["op", None, "flat_reverse", [ref(f), {"lst": z} if rng.random() < 0.5 else
+                                                    ref(self.new("list", {"v": z}, {}, "l"))], {}])
+
+    def traj_use(self, tr):
+        rng = self.rng
+        Tf = self.desc[tr]["Tf"]
+        nt = rng.choice([2, 3, 5])
+        T = ref(self.new_arr((nt,), [round(Tf * i / (nt - 1), 10) for i in range(nt)]))
+        fn = rng.choice(["traj_eval", "traj_eval", "traj_response"])
+        kw = {"squeeze": rng.choice([True, False])} if fn == "traj_response" and rng.random() < 0.3 else {}
+        self.emit(["op", None, fn, [ref(tr), T], kw])
+
     # ---------------------------------------------------------------- configuration steps
     def rnd_key(self):
         rng = self.rng
@@ -1285,7 +1692,8 @@ class Gen:
                  "bode_plot", "nyquist_plot", "pzmap_plot", "nichols_plot", "root_locus_plot",
                  "singular_values_plot", "create_statefbk_iosystem", "create_estimator_iosystem",
                  "describing_function", "markov", "margin_arrays", "sample_system", "model_reduction",
-                 "lti_dynamics", "lti_output", "nyquist_response", "combine_time_responses")
+                 "lti_dynamics", "lti_output", "nyquist_response", "combine_time_responses", "sum", "cost_eval",
+                 "traj_eval", "traj_response", "flat_forward", "flat_reverse")
 
     def add_probe(self):
         """turn a freshly generated library step into a probe (constructors stay as they are)"""
@@ -1318,7 +1726,8 @@ class Gen:
            ("op_bdalg", 9), ("op_connect", 1), ("op_convert", 9), ("op_eval", 9), ("op_margins", 3),
            ("op_matrix", 3), ("op_transform", 3), ("op_time", 8), ("op_nl", 7), ("op_util", 4),
            ("op_plot", 1.5), ("op_objarr", 2), ("op_findop", 4), ("op_statefbk", 2), ("op_ident", 4),
-           ("op_interconnect", 2)]
+           ("op_interconnect", 2), ("op_sum", 2), ("op_nlarith", 3), ("op_rename", 4), ("op_optimal", 1.2),
+           ("op_estim", 0.3), ("op_flat", 0.8)]
 
     def lib_step(self):
         names = [n for n, _ in self.LIB]
@@ -1406,22 +1815,167 @@ def gen_args(rng, tier):
     return {"type": "hist", "hist": g.history(rng.choice([5, 8, 12]), rng.choice([0.0, 0.1, 0.25]))}
 
 
+def gen_opt(rng, tier):
+    """histories on problem objects of control.optimal (several compute_trajectory /
+    compute_estimate calls on one object, warm starts taken from earlier results, MPC controllers),
+    flat-system trajectories"""
+    g = Gen(rng, tier)
+    g.LIB = [("op_optimal", 8), ("op_estim", 1.5), ("op_mpc_eval", 1), ("op_flat", 2), ("op_eval", 1)]
+    return {"type": "hist", "hist": g.history(rng.choice([12, 18, 26]), rng.choice([0.0, 0.0, 0.1, 0.2]))}
+
+
+def gen_mixed(rng, tier):
+    """operators and block-diagram functions on operands of mixed kinds (scalars incl. 0 and 1,
+    arrays, linear and nonlinear systems) in either order, sum(), results renamed by the caller"""
+    g = Gen(rng, tier)
+    g.LIB = [("op_arith", 4), ("op_bdalg", 6), ("op_feedback", 2), ("op_sum", 2), ("op_nlarith", 3),
+             ("op_rename", 5), ("op_unary", 2), ("op_div", 1), ("op_eval", 1)]
+    return {"type": "hist", "hist": g.history(rng.choice([4, 6, 10]), rng.choice([0.0, 0.0, 0.1, 0.25]))}
+
+
 def gen_case(rng, tier):
     r = rng.random()
-    if r < 0.57:
+    if r < 0.50:
         return gen_hist(rng, tier)
-    if r < 0.70:
+    if r < 0.61:
         return gen_cfg_only(rng, tier)
-    if r < 0.81:
+    if r < 0.71:
         return gen_nl(rng, tier)
-    if r < 0.92:
+    if r < 0.80:
         return gen_args(rng, tier)
-    return gen_plot(rng, tier)
+    if r < 0.87:
+        return gen_plot(rng, tier)
+    if r < 0.92:
+        return gen_opt(rng, tier)
+    return gen_mixed(rng, tier)
+
+
+# ---------------------------------------------------------------------------------------------
+# sweeps: input classes that are enumerated on every run (on randomly drawn systems) instead of
+# being left to chance
+# ---------------------------------------------------------------------------------------------
+def identity_forms(S, p, m, kind, g):
+    """operations whose mathematical result equals the operand S (an identity element on either
+    side, a single-system block-diagram call, a conversion to the type S already has, the identity
+    transformation): the place where an implementation may hand back S itself instead of a new
+    system.  Entries: (opname, args, accepts name / inputs / outputs keywords)"""
+    zeros = lambda: ref(g.new_arr((p, m), [[0.0] * m for _ in range(p)], plain=True))
+    eye = lambda k: ref(g.new_arr((k, k), [[1.0 if i == j else 0.0 for j in range(k)] for i in range(k)], plain=True))
+    forms = [("add", [0, S], False), ("add", [0.0, S], False), ("add", [S, 0], False), ("add", [S, 0.0], False),
+             ("sub", [S, 0], False), ("mul", [1, S], False), ("mul", [S, 1], False), ("mul", [1.0, S], False),
+             ("div", [S, 1], False), ("add", [zeros(), S], False), ("add", [S, zeros()], False),
+             ("mul", [S, eye(m)], False), ("mul", [eye(p), S], False),
+             ("sum", [{"lst": [S]}], False), ("sum", [{"lst": [S]}, 0], False), ("sum", [{"lst": [S]}, 0.0], False),
+             ("parallel", [0, S], True), ("parallel", [0.0, S], True), ("parallel", [S, 0], True),
+             ("parallel", [S], True), ("parallel", [zeros(), S], True),
+             ("series", [1, S], True), ("series", [S, 1], True), ("series", [1.0, S], True), ("series", [S], True),
+             ("series", [S, eye(p)], True),
+             ("append", [S], True), ("feedback", [S, 0], True), ("feedback", [S, 0.0], True),
+             ("m_feedback", [S, 0], False), ("m_copy", [S], False)]
+    if kind in ("ss", "tf"):
+        forms += [(kind, [S], True), ("m_to_" + kind, [S], False)]
+        if kind == "tf" or p == m:
+            forms += [("minreal", [S], False), ("m_minreal", [S], False)]
+    if kind == "ss":
+        forms += [("StateSpace", [S], False)]
+    if kind == "tf":
+        forms += [("TransferFunction", [S], False)]
+    if kind in ("nls", "nld"):
+        forms += [("nlsys_of", [S], True)]
+    if p == m and kind in ("ss", "tf", "frd"):
+        forms += [("pow", [S, 1], False)]          # last: `StateSpace ** 1` is a listed finding
+    return forms
+
+
+def sweep_identity(rng, tier):
+    """every identity form on every kind of system (SISO / MIMO StateSpace, TransferFunction, FRD,
+    static and dynamic nonlinear systems), once with the naming keywords in the call and once with
+    the *caller* renaming the result afterwards (`update_names`); the operand must stay as it was"""
+    cases = []
+    kinds = [("ss", 1, 1), ("ss", 2, 2), ("tf", 1, 1), ("tf", 2, 2), ("frd", 1, 1), ("nls", 1, 1), ("nld", 1, 1)]
+    if tier != "quick":
+        kinds = kinds * 4 + [("ss", 1, 2), ("ss", 2, 1), ("tf", 1, 2)]
+    for kind, p, m in kinds:
+        g = Gen(rng, tier)
+        g.cur = g.steps
+        if kind == "ss":
+            S = g.new_ss(p, m, name=g.fresh("S") if rng.random() < 0.5 else None)
+        elif kind == "tf":
+            S = g.new_tf(p, m, name=g.fresh("G") if rng.random() < 0.5 else None)
+        elif kind == "frd":
+            S = g.new_frd()
+        else:
+            S = g.new_nl(kind == "nls", kind=kind)
+        head = list(g.steps)
+        forms = identity_forms(ref(S), p, m, kind, g)
+        consts = g.steps[len(head):]            # the arrays used by the forms
+        chunk = 5
+        for i in range(0, len(forms), chunk):
+            need = set(F.slots_in([a for _, a, _ in forms[i:i + chunk]], []))
+            g.steps = list(head) + [st for st in consts if st[1] in need]
+            g.cur = g.steps
+            for opname, args, named in forms[i:i + chunk]:
+                kw = {}
+                if named and rng.random() < 0.5:
+                    kw["name"] = g.fresh("Q")
+                    if rng.random() < 0.6:
+                        kw["inputs"] = ["in%d" % j for j in range(m)]
+                    if rng.random() < 0.6:
+                        kw["outputs"] = ["out%d" % j for j in range(p)]
+                out = g.out({"k": "res"})
+                g.emit(["op", out, opname, copy.deepcopy(args), kw])
+                if "name" not in kw:
+                    kw2 = {"name": g.fresh("R")}
+                    if rng.random() < 0.5:
+                        kw2["inputs"] = ["ri%d" % j for j in range(m)]
+                    if rng.random() < 0.5:
+                        kw2["outputs"] = ["ro%d" % j for j in range(p)]
+                    g.emit(["op", None, "update_names", [ref(out)], kw2])
+            cases.append({"type": "hist", "hist": g.steps})
+    return cases
+
+
+def sweep_problem_history(rng, tier):
+    """chains of calls on one problem object of control.optimal: each compute_trajectory starts
+    from a new (or, one time in four, the same) initial state and is warm-started with the inputs
+    the previous call returned, a caller-owned array, or not at all"""
+    cases = []
+    for _ in range(5 if tier == "quick" else 40):
+        g = Gen(rng, tier)
+        g.cur = g.steps
+        o = g.new_ocp()
+        d = g.desc[o]
+        prev, x = None, None
+        for _ in range(rng.choice([3, 4, 5])):
+            kw = {}
+            r = rng.random()
+            if prev is not None and r < 0.7:
+                kw["initial_guess"] = {"item": [prev, "inputs"]}
+            elif r < 0.8:
+                kw["initial_guess"] = ref(g.new_arr((d["m"], d["N"])))
+            if rng.random() < 0.3:
+                kw["print_summary"] = False
+            x = g.state_arg(d["n"]) if x is None or rng.random() < 0.75 else x
+            prev = g.out({"k": "ocpres", "ocp": o})
+            g.emit(["op", prev, "ocp_compute_trajectory", [ref(o), x], kw])
+            if rng.random() < 0.15:
+                g.emit(["op", None, "ocp_compute_mpc", [ref(o), g.state_arg(d["n"])], {}])
+        cases.append({"type": "hist", "hist": g.steps})
+    # estimation problems: measurements, inputs, the expected initial state (given / not given) and
+    # the warm start change from call to call
+    for _ in range(3 if tier == "quick" else 20):
+        g = Gen(rng, tier)
+        g.cur = g.steps
+        o = g.new_oep(prior=0.8)
+        for _ in range(rng.choice([3, 4])):
+            g.estim_call(o, px0=0.5, pfn=0.0)
+        cases.append({"type": "hist", "hist": g.steps})
+    return cases
 
 
 def generate(rng, tier):
-    n = 720 if tier == "quick" else 6000
-    return [gen_case(rng, tier) for _ in range(n)]
+    n = 700 if tier == "quick" else 6000
+    return [gen_case(rng, tier) for _ in range(n)] + sweep_identity(rng, tier) + sweep_problem_history(rng, tier)
 
 
 def corpus():
@@ -1491,6 +2045,46 @@ def corpus():
           ["op", "r2", "find_operating_point", [ref("n"), ref("x0"), ref("u0")], {"iu": [0]}],
           ["op", "r3", "find_operating_point", [ref("n"), ref("x0"), ref("u0")], {"ix": [0], "idx": [1], "iu": [0]}],
           ["probe", "p1", "find_operating_point", [ref("n"), ref("x0"), ref("u0"), ref("y0")], {"iy": [0]}]),
+        # classes added after the second round of seeded changes
+        # - `StateSpace ** 1` hands back its operand: renaming the result renames the operand (finding)
+        H(ss("P", -1.0, name="P"), ["op", "q", "pow", [ref("P"), 1], {}],
+          ["op", None, "update_names", [ref("q")], {"name": "Q", "inputs": ["r"]}]),
+        # - evaluating an MPC controller replaces the initial guess kept in its problem object (finding)
+        H(["new", "S", "ss", {"abcd": [[[1.0, 1.0], [0.0, 1.0]], [[0.5], [1.0]], [[1.0, 0.0], [0.0, 1.0]], [[0.0], [0.0]]],
+                              "dt": 1}],
+          ["new", "c", "cost", {"sys": ref("S"), "args": [[[1.0, 0.0], [0.0, 1.0]], [[1.0]]]}],
+          ["new", "T", "arr", {"v": [0.0, 1.0, 2.0, 3.0]}],
+          ["new", "o", "ocp", {"sys": ref("S"), "timepts": ref("T"), "cost": ref("c"), "kw": {}}],
+          ["op", "ctrl", "ocp_create_mpc_iosystem", [ref("o")], {}],
+          ["new", "xc", "arr", {"v": [1.0, 0.0, -1.0, 0.0]}], ["new", "x", "arr", {"v": [1.0, 0.0]}],
+          ["op", None, "nl_output", [ref("ctrl"), 0, ref("xc"), ref("x")], {}]),
+        # - (agree) a scalar identity element as the FIRST operand, naming keywords in the call or the
+        #   result renamed by the caller afterwards; sum() of a one-element list
+        H(["new", "P", "ss", {"abcd": [[[-1.0, 2.0], [0.0, -3.0]], [[0.0], [1.0]], [[1.0, 0.0]], [[0.0]]],
+                              "kw": {"name": "plant", "inputs": ["u"], "outputs": ["y"]}}],
+          ["op", "t1", "parallel", [0, ref("P")], {"name": "total", "inputs": ["r"], "outputs": ["z"]}],
+          ["op", "t2", "add", [0, ref("P")], {}],
+          ["op", None, "update_names", [ref("t2")], {"name": "T2", "inputs": ["r"]}],
+          ["op", "t3", "sum", [{"lst": [ref("P")]}], {}],
+          ["op", None, "update_names", [ref("t3")], {"name": "T3", "outputs": ["z"]}],
+          ["op", "t4", "series", [1, ref("P")], {"name": "T4"}],
+          ["op", "t5", "mul", [ref("P"), 1.0], {}],
+          ["op", None, "update_names", [ref("t5")], {"name": "T5"}]),
+        # - (agree) two compute_trajectory calls on one problem object (shooting), the second from
+        #   another initial state and warm-started with the inputs the first one returned; every
+        #   call equals the same call on a freshly built identical problem
+        H(["new", "S", "ss", {"abcd": [[[1.0, 1.0], [0.0, 1.0]], [[0.5], [1.0]], [[1.0, 0.0], [0.0, 1.0]], [[0.0], [0.0]]],
+                              "dt": 1}],
+          ["new", "c", "cost", {"sys": ref("S"), "args": [[[1.0, 0.0], [0.0, 1.0]], [[1.0]]]}],
+          ["new", "ct", "cost", {"sys": ref("S"), "args": [[[10.0, 0.0], [0.0, 10.0]], None]}],
+          ["new", "T", "arr", {"v": [0.0, 1.0, 2.0, 3.0, 4.0, 5.0]}],
+          ["new", "o", "ocp", {"sys": ref("S"), "timepts": ref("T"), "cost": ref("c"), "kw": {"terminal_cost": ref("ct")}}],
+          ["new", "xa", "arr", {"v": [1.0, 0.0]}], ["new", "xb", "arr", {"v": [-3.0, 2.0]}],
+          ["op", "ra", "ocp_compute_trajectory", [ref("o"), ref("xa")], {"print_summary": False}],
+          ["op", "rb", "ocp_compute_trajectory", [ref("o"), ref("xb")],
+           {"initial_guess": {"item": ["ra", "inputs"]}, "print_summary": False}],
+          ["op", "rc", "ocp_compute_trajectory", [ref("o"), ref("xb")], {"initial_guess": {"item": ["ra", "inputs"]}}],
+          ["op", None, "ocp_compute_mpc", [ref("o"), ref("xa")], {}]),
     ] + systematic()
 
 
